@@ -103,6 +103,17 @@ def run_case(case: Dict[str, Any], ctx) -> None:
         any_nonzero = True
         ctx.count("fit:gradients", 3)
         for b, r, tag in zip(bs, rs, "ABC"):
+            if r > tol and dtype != torch.float64 and dtype != torch.float32:
+                # low precision: is the deviation above what PyTorch's own op suffers on these very inputs?
+                from ..optable import reference_noise
+                sd, su = {"A": (sA, uA), "B": (sB, uB), "C": (sA, uB)}[tag]
+                try:
+                    noise = reference_noise(op, cfg, dtype, sd, su).get(name, 0.0)
+                except Exception:
+                    noise = 0.0
+                if r <= 8 * noise + tol:
+                    ctx.count("lowp:within-noise-of-the-reference-op")
+                    continue
             if r > tol:
                 ctx.violation(key(f"grad-not-a-scalar-multiple:{name}"),
                               f"draw {tag}: residual {r:.3e} > {tol:.1e} (b={b!r}): direction changed", cfg=cfg,
